@@ -56,6 +56,10 @@ def r181_182(ctx):
         ok = A2.eq(lev.data["iter"], A2.spec("range(n)", {"n": Pg["n_samples"], "range": glob("builtins.range")})) and seed.op == "sub" and seed.args[1] is i \
             and all(kw(c, n) is Pg[n] for n in ("data", "annotated_functions", "sensitive_feature_names", "control_feature_names"))
         rs_t = seed.args[0] if seed.op == "sub" else None
+        if not ok and seed is i and all(kw(c, n) is Pg[n] for n in ("data", "annotated_functions", "sensitive_feature_names", "control_feature_names")):
+            # the walk over the seed array itself: one resample per seed; that there are n_samples of them is the seed-stream
+            # obligation below (size=n_samples in every accepted form)
+            ok, rs_t = True, lev.data["iter"]
         apps = [e for e in rg.events if e.kind == "call" and e.data["fterm"].op == "attr" and e.data["fterm"].args[1] == "append" and e.loops == c.loops]
         ok = ok and len(apps) == 1 and arg(apps[0], 0) is c.data["result"] and apps[0].pc == c.pc
     ctx.ob("R18.2", GEN, calls[0].node if calls else None, ok, "exactly one resample per i in range(n_samples), seeded with rs[i], "
